@@ -9,7 +9,7 @@ import os
 
 from sim import devices
 from sim.canon import Log, dec_table, canon_rows
-from sim.core import outcome, ddmin_lists
+from sim.core import outcome, ddmin_lists, draw_config
 from sim.devices import (SimTable, SimSourceError, SOURCE_ERROR_KINDS,
                          INJECTED_SOURCE_FAILURES)
 from sim.gen import gen_sort_table, FIELDS
@@ -74,6 +74,15 @@ def _bufsizes(rng, n):
 
 
 def gen_case(rng, tier, g):
+    case = _gen_case(rng, tier, g)
+    # the host application's petl.config / logging set-up must not matter
+    cfg = draw_config(rng, 0.12, exclude=('sort_buffersize', 'failonerror'))
+    if cfg:
+        case['config'] = cfg
+    return case
+
+
+def _gen_case(rng, tier, g):
     maxrows = 8 if tier == 'quick' else 12
     op = 'sort' if rng.random() < 0.6 else 'mergesort'
     nf = rng.randint(1, 4)
